@@ -110,9 +110,9 @@ def main():
         "setup_cmd": "./setup.sh",
         "hooks": {
             "guard": "stats_ci_verif",
-            "enable": "RUSTFLAGS=\"--cfg stats_ci_verif\" (set in /verif/harness/.cargo/config.toml)",
+            "enable": "RUSTFLAGS=\"--cfg stats_ci_verif\" (set in /verif/harness/.cargo/config.toml; recording additionally needs STATS_CI_TRACE=<file>, used by the own_tests stages of C01/C02/C03 which run /repo's test-suite with the hooks on)",
             "baseline_off_cmd": "cd /repo && cargo test --workspace --no-fail-fast --offline",
-            "source_commits": [],
+            "source_commits": ["2907762"],
             "add_only": True,
         },
         "engines": [
